@@ -4,6 +4,7 @@ mod c01_pubsub;
 mod c05_eventseq;
 mod c08_zcc;
 mod c11_reqres;
+mod c12_blackboard;
 mod c14_reloc;
 mod c18_ffi;
 mod c20_waitset;
@@ -65,6 +66,7 @@ fn main() {
         "zcc" => go!(c08_zcc::generate, || c08_zcc::ZccComp::new()),
         "resize" => go!(c15_resize::generate, || c15_resize::ResizeComp::new()),
         "eventseq" => go!(c05_eventseq::generate, || c05_eventseq::EventSeqComp::new()),
+        "blackboard" => go!(c12_blackboard::generate, || c12_blackboard::BlackboardComp::new()),
         "alloc" => go!(c15_alloc::generate, || c15_alloc::AllocComp::new()),
         "names" => go!(c19_names::generate, || c19_names::NamesComp::new()),
         "vec" => go!(c16_vec::generate, || c16_vec::VecComp::new()),
